@@ -262,7 +262,8 @@ func (c *checker) floatClass(bits uint64) {
 
 func (c *checker) bigIntText(txt string) {
 	t := numTok(txt)
-	if t.K != "int" {
+	if t.K != "int" || (t.Int.Sign() == 0 && txt[0] == '-') {
+		// "-0" is the integer 0 for Int64() (the only way jsontodata.go reads it); its sign exists only as a float
 		return
 	}
 	f, _ := json.Number(txt).Float64()
